@@ -1,3 +1,4 @@
+import NgoVerif.Generated.Tables
 import NgoVerif.Meta.Algebra
 /-!
 # C13 — sum_chains: chained weights add up to the original sum or objective
@@ -26,5 +27,11 @@ theorem C13_merged_groups_counterexample :
     ∃ (groups : Finset Bool) (elems : Bool → Finset Int) (w : Int → Int),
       ∑ t ∈ groups.biUnion elems, w t ≠ ∑ g ∈ groups, ∑ t ∈ elems g, w t :=
   Alg.sum_flatten_counterexample
+
+/-- `api.optimize` (read from the source on every run) constructs this pass with the current program and the caller's
+own declaration lists, under the parameter names the class declares, and replaces the current program by its result -/
+theorem C13_wiring :
+    Tables.API_ARGS.lookup "sum_chains" = some (["input_", "input_predicates"], "input_", "input_") ∧
+    Tables.CTOR_PARAMS.lookup "sum_chains" = some ["prg", "input_predicates"] := by decide
 
 end NgoVerif
